@@ -21,6 +21,7 @@ THEOREMS = [
     "Ts.World.C07_world_replicated_everywhere",
     "Ts.World.C06_world_written_once",
     "Ts.World.C06_world_kept_nodup",
+    "Ts.World.C06_world_replicated_bytes_once",
     "Ts.World.world_roundtrip",
     "Ts.World.worldEntry_rep_indep",
     "Ts.Flatten.C15_inverse",
